@@ -169,6 +169,8 @@ def cases(tier, seed):
                     "shape": list(s), "mode": mode, "tier": tier,
                     "_cost": 0.5 * n + 10})
     # an image whose axes do not start at 0 (a region cut out of a frame)
+    out.append({"id": "propagate:frequency-grid", "kind": "freqgrid",
+                "_cost": 5})
     out.append({"id": "fftinv:one-dimensional", "kind": "fft1d",
                 "_cost": 1})
     out.append({"id": "fftinv:shifted-origin", "kind": "fftorigin",
@@ -814,6 +816,69 @@ def _run_fftinv(case, ck):
     return digest(*acc), {"fft_images": n_img}
 
 
+def _run_freqgrid(case, ck):
+    """anchors for the frequencies the transfer function is evaluated at
+    (the group / linearity / energy statements hold for ANY unitary
+    convolution and cannot see them): the labels fft attaches to its bins
+    are those of the DFT; a uniform image is a plane wave along the axis
+    and only acquires the phase of that wave; the field of a real image
+    propagated backwards is the conjugate of the one propagated forwards"""
+    import holopy as hp
+    from holopy.core.process import fft
+    from holopy.core.metadata import data_grid
+    acc = []
+    rng_img = lambda nx, ny: np.cos(0.37 * np.arange(nx * ny) ** 1.3).reshape(
+        nx, ny) + 1.5
+    for nx, ny in ((8, 8), (7, 7), (2, 2), (6, 9), (16, 15), (32, 32)):
+        for sp in (0.3, (0.3, 0.45)):
+            sx, sy = (sp, sp) if np.isscalar(sp) else sp
+            im = data_grid(rng_img(nx, ny), spacing=sp, medium_index=N_MED,
+                           illum_wavelen=LAM_ILLUM, illum_polarization=(1, 0))
+            what = "%dx%d image, spacing %r" % (nx, ny, sp)
+            for shift in (True, False):
+                f = fft(im, shift=shift)
+                ck.trans += 1
+                for dim, n, s_ in (("m", nx, sx), ("n", ny, sy)):
+                    ref = np.fft.fftfreq(n, s_)
+                    if shift:
+                        ref = np.fft.fftshift(ref)
+                    got = np.asarray(f[dim].values, dtype=float)
+                    e = float(np.abs(got - ref).max() * s_)
+                    if not e <= 1e-12:
+                        _fail(ck, "fft-frequencies", "fft(%s, shift=%r): bins "
+                              "along %s are labelled %s, the DFT frequencies "
+                              "are %s" % (what, shift, dim,
+                                          _short(got), _short(ref)))
+            for d in (5.0, -2.5):
+                # uniform image
+                u = im.copy(data=np.full(im.shape, 2.0))
+                p = np.asarray(hp.propagate(u, d).values).ravel()
+                ck.trans += 1
+                k = 2 * np.pi * N_MED / LAM_ILLUM
+                ph = np.angle(p / 2.0)
+                e = float(min(np.abs(np.angle(np.exp(1j * (ph - k * d)))).max(),
+                              np.abs(np.angle(np.exp(1j * (ph + k * d)))).max())
+                          + np.abs(np.abs(p) - 2.0).max())
+                if not e <= 1e-9:
+                    _fail(ck, "plane-wave", "propagate(uniform %s, %g): a "
+                          "uniform image must come back uniform with the phase "
+                          "+-k d = %.4f of a plane wave along the axis; got "
+                          "phases %s, moduli %s" %
+                          (what, d, np.angle(np.exp(1j * k * d)),
+                           _short(np.round(ph[:4], 4)),
+                           _short(np.round(np.abs(p[:4]), 6))))
+                # twin identity for a real image
+                a = np.asarray(hp.propagate(im, d).values)
+                b = np.asarray(hp.propagate(im, -d).values)
+                ck.trans += 2
+                e = float(np.abs(b - np.conj(a)).max() / np.abs(a).max())
+                if not e <= 1e-12:
+                    _fail(ck, "twin-image", "%s (real): propagate(-%g) differs "
+                          "from conj(propagate(%g)) by %.2e" % (what, d, d, e))
+                acc.append(np.round(a.ravel()[:16], 9))
+    return digest(*acc), {"freqgrid_images": 12}
+
+
 def _run_fft1d(case, ck):
     """one-dimensional arrays (a line cut through an image), which fft and
     ifft document to accept: the inverse of the forward transform"""
@@ -1178,6 +1243,7 @@ def _run_opts(case, ck):
 _KINDS = {"history": _run_history, "siunits": _run_siunits,
           "fftinv": _run_fftinv, "noshift": _run_noshift, "group": _run_group,
           "fftorigin": _run_fftorigin, "fft1d": _run_fft1d,
+          "freqgrid": _run_freqgrid,
           "linear": _run_linear, "list": _run_list, "opts": _run_opts}
 
 
